@@ -2,6 +2,7 @@ import PkVerif.Lemmas.BlobPackedWhole
 import PkVerif.Lemmas.BlobPackedTerm
 import PkVerif.Lemmas.BlobPackedReindex
 import PkVerif.Lemmas.BlobPackedInteg
+import PkVerif.Lemmas.BlobPackedNR
 import PkVerif.Gen.C04
 import PkVerif.Gen.Facts
 /-!
@@ -324,6 +325,24 @@ theorem C04_reindex_rebuilds_whole_rows (C : Ref → Bytes) (env : PackEnv) (s :
   intro p hp
   obtain ⟨z, hz, rest⟩ := hg' p hp
   exact ⟨z, by rw [hl]; exact hz, rest⟩
+
+/-- **a crash at any point of a pack, followed by a restart with recovery, is invisible**: "nothing
+inside a zip has been removed" survives every receive and every step of the pack it triggers (also the
+step that leaves a stored but un-indexed zip behind), so the state at every crash point satisfies the
+hypothesis of `C04_recover_invisible_partial`: whatever the budget, a recovery (fast or full) that
+succeeds serves every blob exactly as the state it started from -/
+theorem C04_crash_then_recover_invisible (C : Ref → Bytes) (env : PackEnv) (s : St) (bud : Budget) (r : Ref)
+    (lays : List ZipLayout) (fuel : Nat) (h : Inv C s) (hn : NothingRemoved s) (full : Bool) (s2 : St)
+    (hr : reindex full (receive env s bud r (C r) lays fuel).s = (s2, .ok)) :
+    NothingRemoved (receive env s bud r (C r) lays fuel).s ∧ Inv C s2 ∧
+    (∀ x, fetch s2 x = fetch (receive env s bud r (C r) lays fuel).s x) ∧
+    (∀ x, stat s2 x = stat (receive env s bud r (C r) lays fuel).s x) ∧
+    (∀ x off len, subFetch s2 x off len = subFetch (receive env s bud r (C r) lays fuel).s x off len) ∧
+    (∀ after limit, enumerate s2 after limit = enumerate (receive env s bud r (C r) lays fuel).s after limit) := by
+  have h1 := (receive_sound (C := C) env s bud r (C r) lays fuel h rfl).1
+  have n1 : NothingRemoved (receive env s bud r (C r) lays fuel).s :=
+    (nr_iff_inSomeZip h1.klarge).mp (receive_nr (C := C) env s bud r (C r) lays fuel h rfl ((nr_iff_inSomeZip h.klarge).mpr hn))
+  exact ⟨n1, C04_recover_invisible_partial C _ s2 full h1 n1 hr⟩
 
 /-! ### a concrete tiny world (non-vacuity of the hypotheses, witnesses of the counterexamples) -/
 
